@@ -5,6 +5,14 @@ HERE = os.path.dirname(os.path.dirname(os.path.abspath(__file__)))
 ALL = [f'C{i:02d}' for i in range(1, 21)]
 
 CHECKS = {
+ 'C02': dict(level='exploration', design='3/C02',
+   technique='runtime monitor: canonical snapshot diff of the real ProviderMdib before/after every transaction of seeded histories + per-handle version high-water marks + structural walker',
+   text='Seeded transaction histories (all state kinds, context, rt, descriptor create/update/delete/re-create, parent+child and descriptor+state in one transaction in both orders, location, empty/aborted/rejected; classic and entity interface) are executed on the real ProviderMdib loaded from the four sample MDIBs. After every transaction a canonical snapshot of all three tables is diffed against the previous one: MdibVersion +1 iff something changed, every changed entity has a higher version, no (handle, version) is ever seen with two contents, versions never decrease across delete/re-create, states carry their descriptor\'s DescriptorVersion, no orphan / duplicate, nothing changed that the transaction did not touch or is coupled to, all lookups agree with a scan. Held on the histories executed.',
+   note='Trusted: my canonical form reads members through the public property descriptors; the coupling rules (parent of added/removed child, states of re-versioned descriptor, subtree of removed descriptor, states disassociated by disassociate_all / set_location) are taken from the statement.'),
+ 'C11': dict(level='exploration', design='3/C11',
+   technique='runtime invariant: index-vs-scan walker as icontract class invariant on the real MultiKeyLookup (every public method boundary) + reference membership model over seeded operation sequences',
+   text='Random operation sequences (add / duplicate unique key / same object twice / attribute change + update_object / remove / remove unknown / clear / add_index on filled table / plural and _no_lock variants / lookups) on real MultiKeyLookup tables with unique, multi, 1:n and None-skipping indices over a 3-6 key alphabet. Every index is recomputed from table.objects with the table\'s own key functions and compared with the index dictionaries and the reference bookkeeping (icontract invariant at each public method boundary + explicit walker after each operation); a reference model decides membership and which inserts must be rejected; a rejected insert must leave an identity-level snapshot of the table unchanged. The same walker runs at every quiescent point of the MDIB-level checks (C01, C02, C03, C06).',
+   note='Trusted: the walker uses the table\'s own key functions; attribute changes without update_object are transient by design and excluded while the harness marks them dirty.'),
  'C15': dict(level='exploration', design='3/C15',
    technique='runtime monitor on the real send queue / send loop: exhaustive enumeration of both random draws (stubbed random), virtual clock, fake sockets; arithmetic oracle from the statement',
    text='The real NetworkingThread._repeated_enqueue_msg is executed for EVERY pair of outcomes of its two random draws (domains learned from the code itself by a dry run; 2 x 100 200 cases) for the unicast and multicast parameter sets and the entries on the real priority queue are checked against the formulas of the statement (count, initial delay, first gap window, doubling, cap). The real _run_send loop is driven on a virtual clock against a fake socket (every datagram counted, timed, ordered) and the own datagrams are fed back through the real _run_q_read loop (must be ignored; foreign ones handled once). Exhaustive for the draw space, sampled for the loop parts.',
